@@ -46,6 +46,20 @@ def deep_path_query(rng):
     return "B %d %d %s %s" % (s, t, h, gen.graph_tokens((n, [(i, i + 1, 1) for i in range(n - 1)])))
 
 
+def huge_cases(rng, tier):
+    """hop distances and hop bounds beyond 65535 (a 16-bit hop counter would saturate or wrap): is_bfs_reachable on paths with ~70000 vertices with bounds
+    around 65535 / 65536 / d, and the spanner of a 65540-cycle with increasing weights and k = 32768 (2k-1 = 65535 < 65539: every edge must be retained).
+    Far beyond what the list-based model can execute: judged against the property text only."""
+    out = []
+    n = rng.randint(69000, 72000); d = n - 1 - rng.randint(0, 500)
+    toks = gen.graph_tokens((n, [(i, i + 1, 1) for i in range(n - 1)]))
+    hs = [65535, 65536, d - 1, d, rng.randint(65537, d - 1)] + (["inf", 65534, d + 1, 2 * d] if tier == "thorough" else [])
+    for h in hs: out.append("B 0 %d %s %s" % (d, h, toks))
+    n = 65540 + rng.randint(0, 3)
+    out.append("S %d %s" % (32768, gen.graph_tokens((n, [(i, (i + 1) % n, i + 1) for i in range(n)]))))
+    return out
+
+
 def long_history(rng, ncalls):
     """A long history of is_bfs_reachable calls made by ONE thread of ONE process, the i-th line being exactly the i-th call of that thread
     (the stream runs in its own process, B cases only).  State that survives between calls (visited stamps, cached buffers, counters) is what this
@@ -107,7 +121,7 @@ def judge(case, impl):
             lighter = [(es[a][0], es[a][1]) for a in ret if es[a][2] <= es[e][2]]
             d = hopdist(n, lighter, es[e][0], es[e][1])
             if d is None or d > 2 * k - 1: return "dropped edge %d has no path of <= %d retained edges that are not heavier (best %s)" % (e, 2 * k - 1, d)
-        for e in ret:   # girth > 2k: every retained edge's endpoints are > 2k-1 hops apart without it
+        for e in (ret if n <= 5000 else []):   # girth > 2k: every retained edge's endpoints are > 2k-1 hops apart without it (quadratic: skipped on the huge cases)
             others = [(es[a][0], es[a][1]) for a in ret if a != e]
             d = hopdist(n, others, es[e][0], es[e][1])
             if d is not None and d + 1 <= 2 * k: return "retained subgraph has a cycle of %d <= 2k edges through edge %d" % (d + 1, e)
@@ -187,6 +201,15 @@ def check(tier, seed):
                 c.violation("correspondence c15 (spanner / is_bfs_reachable vs model) no longer checks; the implementation's answer still satisfies the property text",
                             {"component": "c15", "theorem_or_correspondence": "correspondence c15: extracted construct_spanner / is_bfs_reachable vs harness/c15.cpp",
                              "case": cases[i], "impl": io[i], "model": mo[i], "model_case": mcases[i], **hd}, False)
+        hcases = huge_cases(c.rng, tier)
+        hio = lib.run_lines([exe], hcases, timeout=900)
+        nb = 0
+        for cs, o in zip(hcases, hio):
+            t = cs.split(); c.count(cs, True, bucket="huge " + t[0])
+            why = judge(cs, o)
+            if why and nb < 2:
+                nb += 1
+                c.violation("spanner (hop counts beyond 65535): " + why, {"component": "c15", "case": cs, "impl": o[:2000], "judged_only": True}, True)
         okset = set(bad)
         extra = [i for i in range(len(cases)) if i not in okset and judge(cases[i], io[i])]
         for i in extra[:2]:
